@@ -20,7 +20,7 @@ def rpt_lit(x, y, z, f, s):
                                                                      cb(s != 0))
 
 
-def run_case(param, px_white, mode):
+def run_case(param, px_white, mode, pre=None):
     """px_white[r][c] True = white pixel. Returns (literal, descr)."""
     from femto.rasterimage import RasterImage
     from PIL import Image
@@ -37,7 +37,16 @@ def run_case(param, px_white, mode):
     conv = img if img.mode == '1' else img.convert('1')
     seen_white = np.asarray(conv, dtype=bool)
     with pgm.quiet():
-        r = RasterImage(**param)
+        if pre is None:
+            r = RasterImage(**param)
+        else:
+            # the scale is a public attribute: an object built (and asked for its size) at one scale, then set to another
+            r = RasterImage(**dict(param, px_to_mm=pre, img_size=img.size))
+            try:
+                r.path_size
+            except Exception:
+                pass
+            r.px_to_mm = param.get('px_to_mm', 0.01)
         r.image_to_path(img)
     raw = list(zip(r._x, r._y, r._z, r._f, r._s))
     pts = r.points
@@ -58,9 +67,9 @@ def run(rep: common.Report, tier: str, seed: int):
     cases, lits = [], []
     hist = {'sizes': {}, 'modes': {}, 'streams': {}}
 
-    def add(param, px, mode, stream):
-        lits.append(run_case(param, px, mode))
-        cases.append({'param': param, 'white': px, 'mode': mode, 'stream': stream})
+    def add(param, px, mode, stream, pre=None):
+        lits.append(run_case(param, px, mode, pre))
+        cases.append({'param': param, 'white': px, 'mode': mode, 'stream': stream, 'pre': pre})
         k = f'{len(px[0])}x{len(px)}'
         hist['sizes'][k] = hist['sizes'].get(k, 0) + 1
         hist['modes'][mode] = hist['modes'].get(mode, 0) + 1
@@ -83,7 +92,10 @@ def run(rep: common.Report, tier: str, seed: int):
         param = dict(px_to_mm=rng.choice([0.01, 0.04, 0.125, 0.3]), speed=rng.choice([1.0, 2.0, 0.3, 3.0]),
                      speed_closed=rng.choice([5, 3.0, 3.0]),     # speed == speed_closed happens (1 case in 6)
                      z_init=rng.choice([None, 0.0, -0.01, 0.035]))
-        add(param, px, rng.choice(['1', 'L', 'RGB']), 'random')
+        if rng.random() < 0.2:
+            add(param, px, rng.choice(['1', 'L', 'RGB']), 'rescaled', pre=rng.choice([0.02, 0.5, 0.01]))
+        else:
+            add(param, px, rng.choice(['1', 'L', 'RGB']), 'random')
     fails = common.run_model('C15', 'Harness.C15', 'C15.case', 'C15.failing', lits, shard=100,
                              extra_imports='From Femto Require Import Path.Raster.')
     names = ['trajectory', 'strokes-raw', 'strokes-points', 'closed-ends']
@@ -117,7 +129,7 @@ def run(rep: common.Report, tier: str, seed: int):
 def replay(data):
     c = data['input']
     common.fresh_cwd('C15')
-    lit = run_case(c['param'], c['white'], c['mode'])
+    lit = run_case(c['param'], c['white'], c['mode'], c.get('pre'))
     fails = common.run_model('C15', 'Harness.C15', 'C15.case', 'C15.failing', [lit], tag='replay',
                              extra_imports='From Femto Require Import Path.Raster.')
     print('replay:', 'FAILS' if fails else 'passes', fails)
